@@ -187,9 +187,11 @@ struct RecAllocator : public TestMemoryAllocator {
 
 struct Reporter : public MemoryLeakFailure {
     size_t seen;
-    Reporter() : seen(0) {}
+    bool dirty;          // the detector's text buffer holds something other than the texts of `rereport` / `plugin refinal` calls
+    Reporter() : seen(0), dirty(false) {}
     // the detector passes its whole text buffer; the new report is what follows the part already seen
     void fail(char* s) CPPUTEST_OVERRIDE {
+        dirty = true;
         size_t n = strlen(s);
         const char* m = n >= seen ? s + seen : s;
         seen = n;
@@ -323,11 +325,14 @@ struct Harness {
     }
 
     // empties the detector's text buffer without changing the modelled state (startChecking clears it)
-    void clear_text() {
+    // (not forced: only when it holds a failure text or the text of a plain `report`; the texts of `rereport` calls stay, so
+    // that several reports are asked of one detector without a startChecking() in between)
+    void clear_text(bool force = true) {
+        if (!force && !reporter.dirty) return;
         det->startChecking();
         if (period == mem_leak_period_enabled) det->enable();
         else if (period == mem_leak_period_disabled) det->disable();
-        reporter.seen = 0;
+        reporter.seen = 0; reporter.dirty = false;
     }
 
     void totals() {
@@ -382,10 +387,32 @@ struct Harness {
     void report(int p) {
         clear_text();
         emit_report(det->report((MemLeakPeriod) p));
+        reporter.dirty = true;
+    }
+
+    // a report asked for again: the text buffer is NOT emptied first (unless it holds something else), the answer is the text
+    // this call appended.  `whole` is the detector's complete text after the call.
+    void emit_appended(const char* whole) {
+        size_t n = strlen(whole);
+        const char* part = whole + (reporter.seen <= n ? reporter.seen : n);
+        reporter.seen = n;
+        if (n + 1 >= (size_t) SimpleStringBuffer::SIMPLE_STRING_BUFFER_LEN) {
+            // the text buffer is full: this answer may be cut; the capacity of that buffer is not the subject here
+            reporter.dirty = true;
+            vh::emit("report full");
+            return;
+        }
+        emit_report(part, true);
+    }
+    void rereport(int p) {
+        clear_text(false);
+        emit_appended(det->report((MemLeakPeriod) p));
     }
 
     // the text of a report: length + hash of the complete text, then the parsed entries
-    void emit_report(const char* txt) {
+    // (appended: the text one more report added to earlier ones; past the lowered write limit such a report consists of the
+    // too-many notice and the footer only)
+    void emit_report(const char* txt, bool appended = false) {
         std::string t(txt);
         // the complete text (header, entries with memory dumps, truncation, footer) is compared through its length and hash
         vh::emit("reporttext %lu %016llx", (unsigned long) t.size(), fnv1a(txt));
@@ -397,7 +424,7 @@ struct Harness {
         bool truncated = t.find("Too many memory leaks to report") != std::string::npos;
         bool warn = t.find("NOTE:\n\tMemory leak reports about malloc and free") != std::string::npos;
         long total = -1;
-        std::vector<std::pair<unsigned long, std::string> > entries; bool bad = !header;
+        std::vector<std::pair<unsigned long, std::string> > entries; bool bad = !header && !(appended && truncated);
         for (size_t i = 0; i < ls.size(); i++) {
             unsigned num; unsigned long size; char file[300]; int line; char type[128];
             if (ls[i].compare(0, 11, "Alloc num (") == 0) {
@@ -476,7 +503,7 @@ struct Harness {
                 int ai; unsigned long addr; bool sep = w[6] == "1";
                 if (!alloc_index(w[1], ai, true) || !resolve(w[2], w[3], addr) || !line_ok(w[5])) { vh::emit("> skip"); continue; }
                 vh::emit("> free %d %lu %s %lu %d", ai, addr, w[4].c_str(), (unsigned long) vh::to_u64(w[5]), sep ? 1 : 0);
-                clear_text(); set_print_sizes(ai);
+                clear_text(false); set_print_sizes(ai);
                 g_in_det = true;
                 det->deallocMemory(allocs[ai].a, ptr_of(addr), w[4].c_str(), (size_t) vh::to_u64(w[5]), sep);
                 g_in_det = false;
@@ -494,7 +521,7 @@ struct Harness {
                 }
                 else if (!isnull && !slot_ok(w[5], size, slot)) { vh::emit("> skip"); continue; }
                 vh::emit("> realloc %d %lu %lu %s %lu %d", ai, addr, (unsigned long) size, w[7].c_str(), (unsigned long) vh::to_u64(w[8]), sep ? 1 : 0);
-                clear_text(); set_print_sizes(ai);
+                clear_text(false); set_print_sizes(ai);
                 g_pending = slot; g_pending_null = isnull;
                 g_in_det = true;
                 char* p = det->reallocMemory(allocs[ai].a, ptr_of(addr), size, w[7].c_str(), (size_t) vh::to_u64(w[8]), sep);
@@ -504,7 +531,7 @@ struct Harness {
                 flush();
             }
             else if (o == "period" && w.size() >= 2) {
-                if (w[1] == "start") { det->startChecking(); period = mem_leak_period_checking; reporter.seen = 0; }
+                if (w[1] == "start") { det->startChecking(); period = mem_leak_period_checking; reporter.seen = 0; reporter.dirty = false; }
                 else if (w[1] == "stop") { det->stopChecking(); period = mem_leak_period_enabled; }
                 else if (w[1] == "enable") { det->enable(); period = mem_leak_period_enabled; }
                 else if (w[1] == "disable") { det->disable(); period = mem_leak_period_disabled; }
@@ -520,7 +547,7 @@ struct Harness {
                 else if (w[1] == "dec") { det->decreaseAllocationStage(); vh::emit("> stage dec"); }
                 else if (w[1] == "release") {
                     vh::emit("> stage release");
-                    clear_text(); g_print_sizes = false;
+                    clear_text(false); g_print_sizes = false;
                     g_in_det = true; det->deallocAllMemoryInCurrentAllocationStage(); g_in_det = false;
                     flush(true);
                 }
@@ -550,6 +577,7 @@ struct Harness {
                 for (int k = 0; k < NSLOTS; k++)
                     if (g_tracked[k] && g_recperiod[k] == mem_leak_period_checking) g_recperiod[k] = mem_leak_period_enabled;
             }
+            else if (o == "rereport" && w.size() >= 2 && period_of(w[1]) >= 0) { vh::emit("> rereport %s", w[1].c_str()); rereport(period_of(w[1])); }
             else if (o == "report" && w.size() >= 2 && period_of(w[1]) >= 0) { vh::emit("> report %s", w[1].c_str()); report(period_of(w[1])); }
             else if (o == "write" && w.size() >= 4 && c06) {
                 // write <label> <off> <bytehex>: the client stores one byte at user+off (user bytes or guard bytes of a live block)
@@ -577,7 +605,7 @@ struct Harness {
                 }
                 else if (w[1] == "pre" && lwp) {
                     vh::emit("> plugin pre"); lwp->preTestAction(*shell, *result);
-                    period = mem_leak_period_checking; reporter.seen = 0;
+                    period = mem_leak_period_checking; reporter.seen = 0; reporter.dirty = false;
                 }
                 else if (w[1] == "post" && lwp) {
                     vh::emit("> plugin post"); lwp->postTestAction(*shell, *result);
@@ -590,8 +618,17 @@ struct Harness {
                     vh::emit("> plugin final %lu", (unsigned long) vh::to_u64(w[2]));
                     clear_text();
                     const char* txt = lwp->FinalReport((size_t) vh::to_u64(w[2]));
+                    reporter.dirty = true;
                     if (txt[0] == 0) vh::emit("final empty");
                     else { vh::emit("final report"); emit_report(txt); }
+                }
+                else if (w[1] == "refinal" && lwp && w.size() >= 3 && w[2].size() <= 6) {
+                    // FinalReport(n) asked for again: the text buffer is not emptied first, the answer is what the call appended
+                    vh::emit("> plugin refinal %lu", (unsigned long) vh::to_u64(w[2]));
+                    clear_text(false);
+                    const char* txt = lwp->FinalReport((size_t) vh::to_u64(w[2]));
+                    if (txt[0] == 0) vh::emit("final empty");
+                    else { vh::emit("final report"); emit_appended(txt); }
                 }
                 else if (w[1] == "ignore" && lwp) { vh::emit("> plugin ignore"); lwp->ignoreAllLeaksInTest(); }
                 else if (w[1] == "expect" && lwp && w.size() >= 3 && w[2].size() <= 6) {
@@ -719,7 +756,7 @@ struct Harness {
                 int ai = index_of(getCurrentMallocAllocator()); if (ai < 0) { vh::emit("> skip"); continue; }
                 const char* file = w[6].c_str(); size_t line = (size_t) vh::to_u64(w[7]);
                 vh::emit("> grealloc %lu %lu %s %lu", addr, (unsigned long) size, file, (unsigned long) line);
-                clear_text(); set_print_sizes(ai);
+                clear_text(false); set_print_sizes(ai);
                 g_pending = slot; g_pending_null = isnull;
                 global_on();
                 char* p = (char*) cpputest_realloc_location(old, size, file, line);
@@ -749,7 +786,7 @@ struct Harness {
                 TestMemoryAllocator* cur = form == "free" ? getCurrentMallocAllocator() : form.compare(0, 4, "dela") == 0 ? getCurrentNewArrayAllocator() : getCurrentNewAllocator();
                 int ai = index_of(cur); if (ai < 0) { vh::emit("> skip"); continue; }
                 vh::emit("> grel %s %lu %s %lu", form.c_str(), addr, file, (unsigned long) line);
-                clear_text(); set_print_sizes(ai);
+                clear_text(false); set_print_sizes(ai);
                 char* p = ptr_of(addr);
                 size_t sz = (p && slot_base(p) && g_live[slot_of(p)]) ? g_usersize[slot_of(p)] : 0;     // what a sized delete is told
                 global_on();
